@@ -80,7 +80,7 @@ prop('C01',
 prop('C02',
      [iface.r02_1, iface.r02_7, iface.r02_6, wrappers.r02_2, forward.r02_8, CUR_HIER,
       layout.r02_3, layout.r02_4, layout.r07_1, popmodels.r05_2,
-      layout.r05_3],
+      layout.r05_3, layout.r02_9],
      undecided=['numerical equality of the score with the hand-assembled sum',
                 'covariate values reaching the right individual at run time'],
      assumptions=COMMON_ASSUME,
@@ -96,7 +96,7 @@ prop('C02',
                  'interface.')
 
 prop('C04',
-     [errmodels.r04_1, errmodels.r04_terms],
+     [errmodels.r04_1, errmodels.r04_terms, reduced.r08_1, reduced.r08_2],
      undecided=['behaviour for inputs outside the documented support other '
                 'than the guards (e.g. negative outputs of the '
                 'multiplicative model)',
@@ -122,7 +122,7 @@ prop('C03',
      [errmodels.r04_terms, popmodels.r05_2, iface.r02_7, switch.r03_5,
       switch.r08_7, CUR_LL, CUR_HIER, layout.r07_1, layout.r05_3,
       noise.r13_3, filters.r12_3, layout.r02_3, reduced.r08_2,
-      layout.r13_1],
+      layout.r13_1, popmodels.r05_5],
      undecided=['mechanistic sensitivities (sundials)',
                 'finiteness of scores at run time'],
      assumptions=TERM_ASSUME,
@@ -137,7 +137,7 @@ prop('C03',
                  'sensitivities is that score.')
 
 prop('C05',
-     [ndim.r05_1, popmodels.r05_2, cursors.r05_4, layout.r05_3,
+     [ndim.r05_1, popmodels.r05_2, popmodels.r05_5, cursors.r05_4, layout.r05_3,
       reduced.r08_2],
      undecided=['numerical values at boundary points', '-inf vs nan'],
      assumptions=TERM_ASSUME,
@@ -330,7 +330,7 @@ prop('C17',
 
 prop('C14',
      [problems.r14_1, problems.r14_2, problems.r14_3, problems.r14_4,
-      copies.r19_3, mech.r11_1],
+      copies.r19_3, copies.r11_3, mech.r11_1, layout.r02_9],
      undecided=['pandas dtype coercion', 'effect of unrelated rows beyond '
                 'the enumerated filters', 'numerical equality with the '
                 'hand-assembled posterior'],
